@@ -256,6 +256,10 @@ struct World {
     vocab: Vocab,
     root: Node,
     history: Vec<String>,
+    /// successful calls so far in this history, and whether a node in a brand-new namespace was
+    /// added since the last one (statistics for the "however often … repeated" clause)
+    calls_ok: usize,
+    new_ns_since_call: bool,
 }
 
 fn node_at(w: &World, tree: &GTree, path: &[usize]) -> Node {
@@ -353,6 +357,14 @@ fn call_and_check(w: &mut World, path: &[usize], sink: &mut Sink) -> bool {
     }
     // (3) no binding overridden: a new prefix is bound nowhere in scope of the element and
     // declared nowhere in its subtree; xmlns="" only where a default namespace was in force
+    if w.calls_ok > 0 {
+        sink.stat(&format!("call.repeated.{}", if w.calls_ok >= 3 { "4th+".to_string() } else { format!("{}", w.calls_ok + 1) }));
+        if w.new_ns_since_call {
+            sink.stat(if added_prefixes.is_empty() { "call.repeated.after-new-namespace.nothing-added" } else { "call.repeated.after-new-namespace.prefix-added" });
+        }
+    }
+    w.calls_ok += 1;
+    w.new_ns_since_call = false;
     for (p, pfx, ns) in &added_prefixes {
         sink.stat("oracle.prefix-added");
         let in_scope = scope_at(&before, p);
@@ -493,6 +505,7 @@ fn edit(w: &mut World, rng: &mut Rng, sink: &mut Sink, fresh: &mut usize) {
             let _ = w.xot.append(node, e);
             w.history.push(format!("append new element {{urn:new{}}}e under {}", fresh, path_str(&at)));
             sink.stat("edit.append-element-in-new-namespace");
+            w.new_ns_since_call = true;
         }
         2 => {
             let name = *rng.pick(&EL_NAMES);
@@ -565,7 +578,7 @@ fn run_history(t: &GTree, rng: &mut Rng, sink: &mut Sink, calls: usize, first_ca
             return;
         }
     };
-    let mut w = World { xot, vocab, root, history: vec![format!("tree {}", t.wire())] };
+    let mut w = World { xot, vocab, root, history: vec![format!("tree {}", t.wire())], calls_ok: 0, new_ns_since_call: false };
     let mut fresh = 0;
     for i in 0..calls {
         let tree = read_tree(&w.xot, &mut w.vocab, w.root);
